@@ -298,9 +298,9 @@ let run_clean_divide (g : string list list) : string =
   let cutoff = cLEAN_DIVIDE_CUTOFF_THRESHOLD_PROD in
   let ntt_arm = ZZ.geq (poly_degree bfe_ops rd) cutoff in
   let m = pdiv_clean_divide cutoff false ra rd in
-  (* debug assertions only matter where long division runs: below the cutoff, or in the fallback of the NTT arm *)
-  let fallback () = (match pdiv_vanishes_on_coset ra rd with Some true -> true | _ -> false) in
-  let m' = if ntt_arm && not (fallback ()) then m else pdiv_clean_divide cutoff true ra rd in
+  (* debug assertions only matter where long division runs: below the cutoff (checked here) and in the fallback of the NTT
+     arm, where `debug_assert!(remainder.is_zero())` cannot fire on a clean division (C09_clean_divide_fallback) *)
+  let m' = if ntt_arm then m else pdiv_clean_divide cutoff true ra rd in
   if Array.length d = 0 then (if m = None && m' = None then "PANIC" else diff (show_opt_sp f m) "PANIC")
   else begin
     let (q, rm) = sp_divmod 1 a d in
